@@ -246,7 +246,7 @@ def shards(tier, seed):
                              [pre_leaves], family="aoh", budget=900,
                              desc="w[%s%s(v)] over 3 hashes having/lacking v" % ("!" if inv else "", kw),
                              bounds={"leaves": rng.format("leaf"), "presence": "all 8 patterns"}))
-            if kw != "has_child" and tier == "thorough":
+            if kw != "has_child" and (tier == "thorough" or kw in ("max", "min")):
                 out.append(shard(PID, "hoh/%s%s" % ("not_" if inv else "", kw), "harness.c13",
                                  "hoh_kw(%r, %r, h0, h1, h2, a, b, c)" % (kw, inv),
                                  [("h0", "bool"), ("h1", "bool"), ("h2", "bool"), ("a", "int"), ("b", "int"),
